@@ -103,4 +103,17 @@ Section RootCauses.
   Definition root_causes : list bool := [rc_F1; rc_F2; rc_F3; rc_F4; rc_F5; rc_F6; rc_F7; rc_F8].
 
   Definition C06_dom : bool := forallb negb root_causes.
+
+  (** ** after the repairs of the tokeniser (token-end-before-dot, closing-quote-scan)
+
+      F1, F2, F6, F8 are gone and of F7 only this is left: a blank node object,
+      the dot right after it and the comment right after the dot ([_:b2.#c]).
+      F3, F4, F5 (typing of the token by [decide_literal_type]) are unchanged. *)
+  Definition rc_F7_fx : bool :=
+    is_bnode_obj && str_eqb (predot l) [] &&
+    match comment l with Some (w, _) => str_eqb w [] | None => false end.
+
+  Definition root_causes_fx : list bool := [false; false; rc_F3; rc_F4; rc_F5; false; rc_F7_fx; false].
+
+  Definition C06_dom_fx : bool := forallb negb root_causes_fx.
 End RootCauses.
